@@ -1156,3 +1156,10 @@ Proof. unfold look_for_intersphinx. apply roundtrip_get_link. Qed.
 Lemma linker_is_getlink links (root_names : list text) (obj_full name : text) :
   look_for_intersphinx links root_names obj_full name = get_link links name.
 Proof. reflexivity. Qed.
+
+(* a subject that is not visible (itself hidden, or -- for an --html-subject below the roots -- any ancestor hidden:
+   `hidden` of a subject is `not isVisible`) contributes nothing, whatever it contains *)
+Lemma invisible_subject_lists_nothing roots n t cs rest :
+  gen_lines roots (Obj n t true cs :: rest) = gen_lines roots rest /\
+  entries roots (Obj n t true cs :: rest) = entries roots rest.
+Proof. split; reflexivity. Qed.
